@@ -180,7 +180,7 @@ theorem OpOK.trans {a b c : St S M} (h1 : OpOK G att root a b) (h2 : OpOK G att 
 theorem OpOK.of_same {a b : St S M} (hs : SameRest a b) (hz : ZipOK G att root a → ZipOK G att root b) : OpOK G att root a b :=
   ⟨fun h => by rw [← hs.2.2.2]; exact h, fun z _ => hz z⟩
 
-theorem search_all (halt : Alternating G) (hatt : att = .white ∨ att = .black) (hsb : SmallBranching G) :
+theorem search_all (halt : Alternating G) (hatt : att = .white ∨ att = .black) (hsb : SmallFrom G root) :
     ∀ fuel : Nat,
       (∀ (base : Nat) (mn : UInt64) (st st' : St S M), search G att base mn fuel st = .ok st' →
         OpOK G att root st st' ∧ (ZipOK G att root st → st'.anomaly = false → st'.up.length = base)) ∧
